@@ -146,4 +146,230 @@ theorem fresh_range_sound' (l u : ER) (x : Rat) (hl : lbW l x) (hu : ubW u x) :
     (({} : Pre).narrow l u).Contains x :=
   ⟨narrow_lb ninf l x (by simp [lbOK]) hl, narrow_ub pinf u x (by simp [ubOK]) hu, fun h => by simp [Pre.narrow] at h⟩
 
+
+/-! ### ProductBounds on finite boxes -/
+
+theorem minElem_fin (p : Rat) (l : List Rat) :
+    ∃ m, minElem (fin p) (l.map fin) = fin m ∧ m ≤ p ∧ ∀ q ∈ l, m ≤ q := by
+  induction l generalizing p with
+  | nil => exact ⟨p, rfl, le_refl _, by simp⟩
+  | cons a l ih =>
+    simp only [List.map_cons, minElem, List.foldl_cons, ER.lt]
+    by_cases h : a < p
+    · simp only [h, decide_true, if_true]
+      obtain ⟨m, hm, hmp, hml⟩ := ih a
+      refine ⟨m, hm, by linarith, ?_⟩
+      intro q hq
+      rcases List.mem_cons.mp hq with rfl | hq
+      · exact hmp
+      · exact hml q hq
+    · simp only [h, decide_false]
+      obtain ⟨m, hm, hmp, hml⟩ := ih p
+      refine ⟨m, hm, hmp, ?_⟩
+      intro q hq
+      rcases List.mem_cons.mp hq with rfl | hq
+      · linarith [not_lt.mp h]
+      · exact hml q hq
+
+theorem maxElem_fin (p : Rat) (l : List Rat) :
+    ∃ m, maxElem (fin p) (l.map fin) = fin m ∧ p ≤ m ∧ ∀ q ∈ l, q ≤ m := by
+  induction l generalizing p with
+  | nil => exact ⟨p, rfl, le_refl _, by simp⟩
+  | cons a l ih =>
+    simp only [List.map_cons, maxElem, List.foldl_cons, ER.lt]
+    by_cases h : p < a
+    · simp only [h, decide_true, if_true]
+      obtain ⟨m, hm, hmp, hml⟩ := ih a
+      refine ⟨m, hm, by linarith, ?_⟩
+      intro q hq
+      rcases List.mem_cons.mp hq with rfl | hq
+      · exact hmp
+      · exact hml q hq
+    · simp only [h, decide_false]
+      obtain ⟨m, hm, hmp, hml⟩ := ih p
+      refine ⟨m, hm, hmp, ?_⟩
+      intro q hq
+      rcases List.mem_cons.mp hq with rfl | hq
+      · linarith [not_lt.mp h]
+      · exact hml q hq
+
+/-- some corner is below / above the product -/
+theorem corner_le_mul {a b c d x y : Rat} (hax : a ≤ x) (hxb : x ≤ b) (hcy : c ≤ y) (hyd : y ≤ d) (m : Rat)
+    (h1 : m ≤ a * c) (h2 : m ≤ a * d) (h3 : m ≤ b * c) (h4 : m ≤ b * d) : m ≤ x * y := by
+  rcases le_total 0 y with hy | hy
+  · have s1 : a * y ≤ x * y := mul_le_mul_of_nonneg_right hax hy
+    rcases le_total 0 a with ha | ha
+    · have := mul_le_mul_of_nonneg_left hcy ha; linarith
+    · have := mul_le_mul_of_nonpos_left hyd ha; linarith
+  · have s1 : b * y ≤ x * y := mul_le_mul_of_nonpos_right hxb hy
+    rcases le_total 0 b with hb | hb
+    · have := mul_le_mul_of_nonneg_left hcy hb; linarith
+    · have := mul_le_mul_of_nonpos_left hyd hb; linarith
+
+theorem mul_le_corner {a b c d x y : Rat} (hax : a ≤ x) (hxb : x ≤ b) (hcy : c ≤ y) (hyd : y ≤ d) (m : Rat)
+    (h1 : a * c ≤ m) (h2 : a * d ≤ m) (h3 : b * c ≤ m) (h4 : b * d ≤ m) : x * y ≤ m := by
+  rcases le_total 0 y with hy | hy
+  · have s1 : x * y ≤ b * y := mul_le_mul_of_nonneg_right hxb hy
+    rcases le_total 0 b with hb | hb
+    · have := mul_le_mul_of_nonneg_left hyd hb; linarith
+    · have := mul_le_mul_of_nonpos_left hcy hb; linarith
+  · have s1 : x * y ≤ a * y := mul_le_mul_of_nonpos_right hax hy
+    rcases le_total 0 a with ha | ha
+    · have := mul_le_mul_of_nonneg_left hyd ha; linarith
+    · have := mul_le_mul_of_nonpos_left hcy ha; linarith
+
+theorem sq_le_of_bounds {a b x : Rat} (ha : a ≤ x) (hb : x ≤ b) : x * x ≤ a * a ∨ x * x ≤ b * b := by
+  rcases le_total 0 x with h | h
+  · right; nlinarith [mul_nonneg (sub_nonneg.2 hb) (by linarith : (0 : Rat) ≤ b + x)]
+  · left; nlinarith [mul_nonneg (sub_nonneg.2 ha) (by linarith : (0 : Rat) ≤ -(a + x))]
+theorem sq_ge_of_pos {a x : Rat} (h0 : 0 < a) (ha : a ≤ x) : a * a ≤ x * x := by
+  nlinarith [mul_nonneg (sub_nonneg.2 ha) (by linarith : (0 : Rat) ≤ x + a)]
+theorem sq_ge_of_neg {b x : Rat} (h0 : b < 0) (hb : x ≤ b) : b * b ≤ x * x := by
+  nlinarith [mul_nonneg (sub_nonneg.2 hb) (by linarith : (0 : Rat) ≤ -(b + x))]
+
+theorem le_fin (p q : Rat) : le (fin p) (fin q) = decide (p ≤ q) := by
+  simp only [le, ER.lt, ER.eq]
+  by_cases h : p ≤ q
+  · rcases lt_or_eq_of_le h with h1 | h1 <;> simp [h, h1]
+  · have h1 : ¬ p < q := fun h' => h h'.le
+    have h2 : ¬ p = q := fun h' => h h'.le
+    simp [h, h1, h2]
+
+/-- every variable has finite bounds -/
+def FinBox (e : Env) : Prop := ∀ v, ∃ p q, (e v).lb = fin p ∧ (e v).ub = fin q
+
+/-- `ProductBounds` is sound on finite boxes (distinct variables: corner products; same variable: the square rule) -/
+theorem productBounds_sound (e : Env) (val : Val) (h : Feasible e val) (hf : FinBox e) (x y : Nat) :
+    lbW (productBounds e x y).1 (val x * val y) ∧ ubW (productBounds e x y).2 (val x * val y) := by
+  obtain ⟨a, b, hla, hub⟩ := hf x
+  obtain ⟨c, d, hlc, hud⟩ := hf y
+  obtain ⟨hxl, hxu, _⟩ := h x
+  obtain ⟨hyl, hyu, _⟩ := h y
+  rw [hla] at hxl; rw [hub] at hxu; rw [hlc] at hyl; rw [hud] at hyu
+  simp only [lbOK, ubOK] at hxl hxu hyl hyu
+  unfold productBounds
+  by_cases hxy : x = y
+  · subst hxy
+    rw [hla] at hlc; rw [hub] at hud
+    injection hlc with hac; injection hud with hbd
+    subst hac; subst hbd
+    simp only [ne_eq, not_true_eq_false, if_false, hla, hub, mul, le_fin]
+    constructor
+    · right
+      by_cases hz : a ≤ 0 ∧ 0 ≤ b
+      · have : (decide (a ≤ 0) && decide (0 ≤ b)) = true := by simp [hz.1, hz.2]
+        simp only [this, if_true, lbOK]; exact mul_self_nonneg _
+      · have : (decide (a ≤ 0) && decide (0 ≤ b)) = false := by
+          rw [Bool.and_eq_false_iff]; rw [not_and_or] at hz
+          rcases hz with h1 | h1
+          · left; simp [h1]
+          · right; simp [h1]
+        have hz' : 0 < a ∨ b < 0 := by
+          rw [not_and_or] at hz; rcases hz with h1 | h1
+          · left; exact not_le.mp h1
+          · right; exact not_le.mp h1
+        simp only [this, smin, ER.lt]
+        by_cases hc : b * b < a * a
+        · simp only [hc, decide_true, if_true, lbOK]
+          rcases hz' with h0 | h0
+          · have := sq_ge_of_pos h0 hxl; exact le_trans hc.le this
+          · exact sq_ge_of_neg h0 hxu
+        · simp only [hc, decide_false, lbOK]
+          have : (false = true) = False := by simp
+          simp only [this, if_false]
+          rcases hz' with h0 | h0
+          · exact sq_ge_of_pos h0 hxl
+          · have := sq_ge_of_neg h0 hxu; linarith [not_lt.mp hc]
+    · right
+      simp only [smax, ER.lt]
+      by_cases hc : a * a < b * b
+      · simp only [hc, decide_true, if_true, ubOK]
+        rcases sq_le_of_bounds hxl hxu with h1 | h1 <;> linarith
+      · simp only [hc, decide_false, ubOK]
+        have : (false = true) = False := by simp
+        simp only [this, if_false]
+        rcases sq_le_of_bounds hxl hxu with h1 | h1 <;> linarith [not_lt.mp hc]
+  · simp only [ne_eq, hxy, not_false_eq_true, if_true, hla, hub, hlc, hud, mul]
+    obtain ⟨m, hm, hm1, hml⟩ := minElem_fin (a * c) [a * d, b * c, b * d]
+    obtain ⟨M, hM, hM1, hMl⟩ := maxElem_fin (a * c) [a * d, b * c, b * d]
+    simp only [List.map_cons, List.map_nil] at hm hM
+    rw [hm, hM]
+    exact ⟨Or.inr (corner_le_mul hxl hxu hyl hyu m hm1 (hml _ (by simp)) (hml _ (by simp)) (hml _ (by simp))),
+           Or.inr (mul_le_corner hxl hxu hyl hyu M hM1 (hMl _ (by simp)) (hMl _ (by simp)) (hMl _ (by simp)))⟩
+
+
+theorem mul_fin_nan (c : Rat) : mul (fin c) nan = nan := rfl
+
+theorem scaleW_pos_lb (c : Rat) (b : ER) (x : Rat) (hc : 0 ≤ c) (h : lbW b x) : lbW (mul (fin c) b) (c * x) := by
+  rcases h with rfl | h
+  · left; rfl
+  · exact scale_pos_lb c b x hc h
+theorem scaleW_pos_ub (c : Rat) (b : ER) (x : Rat) (hc : 0 ≤ c) (h : ubW b x) : ubW (mul (fin c) b) (c * x) := by
+  rcases h with rfl | h
+  · left; rfl
+  · exact scale_pos_ub c b x hc h
+theorem scaleW_neg_lb (c : Rat) (b : ER) (x : Rat) (hc : c < 0) (h : ubW b x) : lbW (mul (fin c) b) (c * x) := by
+  rcases h with rfl | h
+  · left; rfl
+  · exact scale_neg_lb c b x hc h
+theorem scaleW_neg_ub (c : Rat) (b : ER) (x : Rat) (hc : c < 0) (h : lbW b x) : ubW (mul (fin c) b) (c * x) := by
+  rcases h with rfl | h
+  · left; rfl
+  · exact scale_neg_ub c b x hc h
+
+theorem boundsQuadT_cons (e : Env) (t : Rat × Nat × Nat) (qs : QuadT) :
+    boundsQuadT e (t :: qs) =
+      (let r := boundsQuadT e qs
+       let c := t.1; let v1 := t.2.1; let v2 := t.2.2
+       let pb := productBounds e v1 v2
+       let r' : Pre := if 0 ≤ c then { r with lb := add r.lb (mul (fin c) pb.1), ub := add r.ub (mul (fin c) pb.2) }
+                       else { r with lb := add r.lb (mul (fin c) pb.2), ub := add r.ub (mul (fin c) pb.1) }
+       { r' with int := r'.int && ((e v1).int && (e v2).int && ratIsInt c) }) := by
+  simp [boundsQuadT]
+
+theorem quadVal_cons (val : Val) (t : Rat × Nat × Nat) (qs : QuadT) :
+    quadVal val (t :: qs) = t.1 * (val t.2.1 * val t.2.2) + quadVal val qs := by
+  simp [quadVal]
+
+/-- `ComputeBoundsAndType(QuadTerms)` is sound, given that `ProductBounds` is (hypothesis `hpb`) -/
+theorem boundsQuadT_sound (e : Env) (val : Val) (h : Feasible e val)
+    (hpb : ∀ x y, lbW (productBounds e x y).1 (val x * val y) ∧ ubW (productBounds e x y).2 (val x * val y))
+    (qs : QuadT) : (boundsQuadT e qs).ContainsW (quadVal val qs) := by
+  induction qs with
+  | nil => exact ⟨Or.inr (by simp [boundsQuadT, quadVal, lbOK]), Or.inr (by simp [boundsQuadT, quadVal, ubOK]),
+                  fun _ => by simpa [quadVal] using IsInt.zero⟩
+  | cons t qs ih =>
+    obtain ⟨hl, hu, hi⟩ := ih
+    obtain ⟨pl, pu⟩ := hpb t.2.1 t.2.2
+    obtain ⟨_, _, i1⟩ := h t.2.1
+    obtain ⟨_, _, i2⟩ := h t.2.2
+    rw [boundsQuadT_cons, quadVal_cons]
+    by_cases hc : 0 ≤ t.1
+    · refine ⟨?_, ?_, ?_⟩
+      · simp only [hc, if_true]; rw [add_comm (t.1 * _)]
+        exact add_lbW _ _ _ _ hl (scaleW_pos_lb _ _ _ hc pl)
+      · simp only [hc, if_true]; rw [add_comm (t.1 * _)]
+        exact add_ubW _ _ _ _ hu (scaleW_pos_ub _ _ _ hc pu)
+      · intro hint
+        simp only [hc, if_true, Bool.and_eq_true] at hint
+        exact IsInt.add (IsInt.mul (isInt_of_ratIsInt hint.2.2) (IsInt.mul (i1 hint.2.1.1) (i2 hint.2.1.2))) (hi hint.1)
+    · have hc' : t.1 < 0 := not_le.mp hc
+      refine ⟨?_, ?_, ?_⟩
+      · simp only [hc, if_false]; rw [add_comm (t.1 * _)]
+        exact add_lbW _ _ _ _ hl (scaleW_neg_lb _ _ _ hc' pu)
+      · simp only [hc, if_false]; rw [add_comm (t.1 * _)]
+        exact add_ubW _ _ _ _ hu (scaleW_neg_ub _ _ _ hc' pl)
+      · intro hint
+        simp only [hc, if_false, Bool.and_eq_true] at hint
+        exact IsInt.add (IsInt.mul (isInt_of_ratIsInt hint.2.2) (IsInt.mul (i1 hint.2.1.1) (i2 hint.2.1.2))) (hi hint.1)
+
+theorem addBounds_sound (a b : Pre) (x y : Rat) (ha : a.ContainsW x) (hb : b.ContainsW y) :
+    (addBounds a b).ContainsW (x + y) := by
+  obtain ⟨al, au, ai⟩ := ha
+  obtain ⟨bl, bu, bi⟩ := hb
+  refine ⟨add_lbW _ _ _ _ al bl, add_ubW _ _ _ _ au bu, ?_⟩
+  intro hint
+  simp only [addBounds, Bool.and_eq_true] at hint
+  exact IsInt.add (ai hint.1) (bi hint.2)
+
 end MpVerif.C06
